@@ -5,9 +5,7 @@ import (
 	"context"
 	"fmt"
 	"os"
-	"path/filepath"
 	"regexp"
-	"sort"
 	"strings"
 
 	"github.com/prometheus/common/model"
@@ -31,17 +29,16 @@ var (
 func setup(t string) {
 	cfg = pipeline.DefaultConfig()
 	gen = pipeline.Generator(cfg)
-	dir := filepath.Join(os.Getenv("VERIF_DIR"), ".build", "c06", "seeds")
-	names, _ := filepath.Glob(filepath.Join(dir, "*.yml"))
-	sort.Strings(names)
-	for _, n := range names {
-		b, err := os.ReadFile(n)
-		if err != nil {
-			panic(err)
-		}
+	// every space runs setup: whatever a process ran before, it ends with the same corpus. seedCorpus is compiled
+	// into the binary (seeds_gen.go, written by prebuild.sh), so the master and all workers agree on it.
+	seeds = seeds[:0]
+	for _, b := range seedCorpus {
 		if len(b) < 8000 {
-			seeds = append(seeds, string(b))
+			seeds = append(seeds, b)
 		}
+	}
+	if len(seeds) < 50 {
+		panic(fmt.Sprintf("seed corpus missing or too small: %d seeds", len(seeds)))
 	}
 }
 
@@ -515,6 +512,9 @@ func main() {
 	if os.Getenv("VERIF_WORKER_GOMAXPROCS") == "" {
 		os.Setenv("VERIF_WORKER_GOMAXPROCS", "1")
 	}
+	// the styled and embedded spaces generate with the same indent dimension whichever space a worker process
+	// ran first (it used to be set by the styled space's Setup only)
+	rulegen.NestedIndents = []int{2, 1, 3}
 	explore.Main(&explore.Config{
 		Property: "C06", Level: "exploration",
 		Rule: "(a) one/two-rule documents: every extracted field (alert, expr, for, keep_firing_for, label/annotation values, quoted label key) x 17 scalar styles (plain, quoted, literal/folded with every chomping indicator, indentation indicator, 1- and 4-space block indents, multi-line plain/quoted, blank lines) x value vocabulary stressing the greedy matcher x comment/blank placement x 5 layouts x label/annotation keys indented by 2, 1 or 3 (a free dimension, not a deviation) x field order x final newline, all documents with <=k non-default choices (k=2 quick, 3 thorough), strict and relaxed; (b) every YAML fixture of the repository x 6 whole-file transforms x 2 modes. Oracle needs no hand-written expectation: the file read at YamlNode.Pos must spell YamlNode.Value; every sub-range through readRange; every diagnostic of every default check. distinct = distinct (mode, bytes); non-trivial = at least one rule parsed / one non-default choice",
@@ -523,7 +523,7 @@ func main() {
 			"a value space or newline may map to the end-of-line position of the source (folding); trailing blanks of block scalars need no position",
 		},
 		Spaces: []*explore.Space{
-			{Name: "styled", Body: styled, Setup: func(t string) { rulegen.NestedIndents = []int{2, 1, 3}; setup(t) }, Bound: func(t string) int {
+			{Name: "styled", Body: styled, Setup: setup, Bound: func(t string) int {
 				if t == "thorough" {
 					return 3
 				}
